@@ -1244,6 +1244,13 @@ func (ev *Evaluator) call(env *Env, e *ast.CallExpr) Value {
 			}
 		}
 		evalArgs()
+		if fn.FullName() == "sort.Sort" || fn.FullName() == "sort.Stable" {
+			if len(e.Args) == 1 {
+				if ev.sortInterface(env, e, args[0]) {
+					return nil
+				}
+			}
+		}
 		return ev.callTypesFunc(e.Pos(), fn, recv, args)
 	}
 	// dynamic: function value
@@ -1939,4 +1946,40 @@ func (ev *Evaluator) CallValue(f *FuncVal, args []Value) Value {
 		return ev.callTypesFunc(token.NoPos, f.Fn, f.Recv, args)
 	}
 	return ev.callFuncVal(token.NoPos, f, args)
+}
+
+// sortInterface models sort.Sort / sort.Stable on a value whose named type implements
+// sort.Interface with repository methods: a stable insertion sort through Less and Swap.
+func (ev *Evaluator) sortInterface(env *Env, e *ast.CallExpr, v Value) bool {
+	t := env.pkg.TypesInfo.TypeOf(e.Args[0])
+	if t == nil {
+		return false
+	}
+	lookup := func(name string) *types.Func {
+		obj, _, _ := types.LookupFieldOrMethod(t, true, env.pkg.Types, name)
+		f, _ := obj.(*types.Func)
+		return f
+	}
+	lenF, lessF, swapF := lookup("Len"), lookup("Less"), lookup("Swap")
+	if lenF == nil || lessF == nil || swapF == nil {
+		return false
+	}
+	ev.SortCalls = append(ev.SortCalls, SortCall{Pos: e.Pos(), Func: "sort.Sort"})
+	n, ok := ev.callTypesFunc(e.Pos(), lenF, v, nil).(Lin)
+	if !ok || !n.IsConst() {
+		ev.fail(e.Pos(), "sort.Sort on a collection of symbolic length")
+	}
+	for i := int64(1); i < n.C; i++ {
+		for j := i; j > 0; j-- {
+			b, isBool := ev.callTypesFunc(e.Pos(), lessF, v, []Value{K(j), K(j - 1)}).(bool)
+			if !isBool {
+				ev.fail(e.Pos(), "Less did not return a boolean")
+			}
+			if !b {
+				break
+			}
+			ev.callTypesFunc(e.Pos(), swapF, v, []Value{K(j), K(j - 1)})
+		}
+	}
+	return true
 }
